@@ -55,6 +55,10 @@ def build_calls(quick):
         add("transpile", s, d, d if i % 2 == 0 else CORE_TARGETS[i % len(CORE_TARGETS)])
         if i % 4 == 0:
             add("parse_repr", s, d)
+    # star expansion over set operations BY NAME (column sets with >= 3 members, every side / kind)
+    for side in ("", "INNER ", "LEFT ", "FULL "):
+        for op in ("UNION ALL", "UNION", "INTERSECT", "EXCEPT"):
+            add("qualify", f"SELECT * FROM (SELECT 1 AS alpha, 2 AS beta, 3 AS gamma, 4 AS delta {side}{op} BY NAME SELECT 5 AS gamma, 6 AS beta, 7 AS alpha, 8 AS eps) AS t", "duckdb", "core")
     qs = [s for c, s, t in queries(2, opt_extras=True)]
     for s in qs[::(2 if quick else 1)]:
         add("optimize", s, "duckdb", "opt")
@@ -149,6 +153,26 @@ def run(ctx: Ctx) -> None:
     alone = calls[::step]
     for c in alone:
         cells.append((f"alone/{c[0]}", 0, [c]))
+    # cold vs warm: every dialect's own G_core statements (k <= 1) generated in a process that has loaded nothing but that
+    # dialect, and in a process that loaded every other dialect first (class-level tables copied at import time, lazily
+    # registered dialects, metaclass side effects)
+    from vlib import corpus as _corpus
+    from vlib.grammar_core import statements as _statements
+
+    all_d = _corpus.all_dialects()
+    coldwarm = []
+    for d in all_d if not quick else all_d:
+        specs = [[f"cw_{d}_{j}", "transpile", s_, d, d] for j, (c_, s_, t_) in enumerate(_statements(d, 1))][::(2 if quick else 1)]
+        # probes for tables the dialect metaclass edits at class-creation time (JSON path parts), read by d and by base
+        probes = ["SELECT JSON_EXTRACT(a, '$.x[*].y') FROM t", "SELECT JSON_EXTRACT(a, '$..y') FROM t", "SELECT JSON_EXTRACT(a, '$.x[0:2]') FROM t",
+                  "SELECT JSON_EXTRACT(a, '$.x[?(@.y)]') FROM t", "SELECT JSON_EXTRACT(a, '$.*') FROM t", "SELECT JSON_EXTRACT_SCALAR(a, '$.x[1].y') FROM t",
+                  "SELECT a -> '$.x[*]' FROM t", "SELECT a ->> '$.x' FROM t"]
+        specs += [[f"cw_{d}_p{j}_{r or 'b'}", "transpile", s_, r, d] for j, s_ in enumerate(probes) for r in ("", d)]
+        for sp in specs:
+            by_id[sp[0]] = sp
+        cells.append((f"cold/{d}", 0, specs))
+        cells.append((f"warm/{d}", 0, [[f"pre_{d}", "preload", [x for x in all_d if x != d]]] + specs))
+        coldwarm.append(d)
     cells.append(("reuse", 0, reuse))
     cells.append(("reuse/seed3", 3, reuse))
     # run with bounded parallelism
@@ -183,6 +207,8 @@ def run(ctx: Ctx) -> None:
             if base_id.startswith("w"):
                 continue
             ref = canonical.get(base_id)
+            if ref is None and base_id.startswith("cw_"):
+                ref = results[f"cold/{base_id.split('_')[1]}"].get(base_id)
             if ref is None:
                 # group calls: canonical is the first permutation cell of that group
                 ref = results[f"group{base_id[1:].split('_')[0]}/perm0"].get(base_id) if base_id.startswith("g") else None
@@ -235,7 +261,8 @@ def run(ctx: Ctx) -> None:
             "evaluations": compared,
             "distinct_nontrivial": nontrivial,
             "rule": f"matrix cells = {S} hash seeds x forward order, {S // (2 if quick else 1)} seeds x reverse order, 3 seeds x every-third-call-twice, all 6 permutations of 4 "
-                    f"cross-dialect groups (each permutation in its own cold process), {len(alone)} calls alone in a fresh process, 2 reuse cells; "
+                    f"cross-dialect groups (each permutation in its own cold process), {len(alone)} calls alone in a fresh process, a cold and a warm (all other dialects "
+                    f"loaded first) process per dialect running that dialect's own G_core statements, 2 reuse cells; "
                     f"{len(calls)} calls (transpile into 8 targets and from 12 source dialects, every" + (" second" if quick else "") + " statement of tests/dialects/*.py from its own dialect, tokenize, pretty, annotate, qualify, optimize on the "
                     "optimizer fragment, simplify / normalize / typed simplify on G_bool + multi-operand connectors, lineage on composed "
                     "relations); every digest must equal the seed-0 forward cell. non-trivial = calls that go through set/dict-keyed optimizer code.",
